@@ -9,6 +9,10 @@ use elements::secp256k1_zkp::PublicKey;
 use elements::{Address, AddressParams, PubkeyHash, ScriptHash};
 use std::str::FromStr;
 
+/// model growth: conversions, inspectors and constructors (`EV.Model.AddressOps`)
+#[path = "c06_ops.rs"]
+mod ops;
+
 fn net_name(p: &AddressParams) -> &'static str {
     for (n, q) in nets() {
         if p == q {
@@ -752,4 +756,7 @@ pub fn run(rng: &mut R, out: &mut Out) {
             check_invalid(out, "junk_rejected", &t);
         }
     }
+
+    // ---- conversions, inspectors and constructors (EV.Model.AddressOps)
+    ops::run(rng, out);
 }
